@@ -357,6 +357,19 @@ def scn_faultfree(ctx):
             raise Violation("c10.result_overwritten", "the arrays returned by the first batch call changed while the caller held them (overwritten by the second call on the same object)", sig="CphotAng.__call__:aliasing")
         if exc is None and res is not None:
             held = (res, [np.asarray(a).tobytes() for a in res])
+        if b == 0 and nb == 2 and ch.draw(2, "other_object") == 1:
+            # another evaluator with another detector altitude comes to life and works between the
+            # two batches (a second configuration in the same process): the first must not notice
+            other_alt = DET_ALTS[(DET_ALTS.index(det_alt) + 1 + ch.draw(2, "other_alt")) % 3]
+            other = CphotAng(other_alt)
+            k = ch.draw(len(_pool(tier)), "other_event")
+            oidx = [k, (k + 7) % len(_pool(tier))]
+            w2 = SimWorld(ctx, env.repo_src(), mode="thread-atomic", workers=1, chunksize=1, cfg={"tick": False, "fault": None, "stragglers": set()})
+            with w2.active(partition_knob=1):
+                ores = other(*_arrays(tier, oidx), _cloud(kind))
+            _compare("c10.other_object", ores, other_alt, kind, tier, oidx)
+            ctx.probes["other_object_between_batches"] += 1
+            del other
         if exc is not None:
             raise Violation(
                 "c10.raised_without_fault",
